@@ -139,6 +139,65 @@ def batch_kernels_concrete(ctx):
     ctx.note_batch("kernel-accesses-concrete-shapes", n, dis, exhaustive=False, constructor_counts=ops)
 
 
+def batch_kernels_after_transformations(ctx):
+    """the bounds checks on the kernels generated AFTER every graph transformation of C05 (deduplicate,
+    deduplicate_data_wrappers, eliminate_dead_code, materialize_with_mpms, copies, and deduplicate_data_wrappers
+    followed by materialization) applied to graphs over WRAPPED DATA that are views of one buffer (C05's view
+    scenarios: other stride / offset / shape / dtype / LENGTH of the same pointer) and to the CSR scenarios, with
+    the outputs in both orders (which view is visited first decides which wrapper survives a merge)"""
+    import pytato as pt
+    from . import c05
+    T = c05.transformations()
+    names = [n for n in sorted(T) if n != "preprocess"]
+    scen = [sc for sc in c05.scenarios(ctx.seed)
+            if sc.name.startswith("data-wrapper-views") or sc.name.startswith("csr-matrix-operands-replaced")]
+    jobs, meta = [], []
+    skipped = 0
+    for sc in scen:
+        inp = sc.make_inputs(None)
+        items = list(sc._outputs.items())
+        for order, its in (("as-built", items), ("reversed", items[::-1])):
+            try:
+                e0 = pt.transform.deduplicate(pt.make_dict_of_named_arrays(dict(its)))
+            except Exception:   # noqa: BLE001
+                skipped += 1
+                continue
+            pipes = [(n,) for n in names] + [("deduplicate_data_wrappers", "materialize_with_mpms")]
+            if sc.name.startswith("csr") and not ctx.thorough:
+                pipes = [("deduplicate_data_wrappers",), ("deduplicate",)]
+            for pipe in pipes:
+                try:
+                    cur = e0
+                    for n in pipe:
+                        cur = T[n][0](cur)
+                except Exception:   # noqa: BLE001  (a transformation refusing a graph is C05's business)
+                    skipped += 1
+                    continue
+                jobs.append(cexec.Job(tag=f"{sc.name}:{order}:{'+'.join(pipe)}", expr=cur, runs=[inp], kir_orders=0,
+                                      no_exec=True, bounds_check=False))
+                meta.append((sc.name, order, pipe))
+    res = cexec.run_jobs(ctx, jobs)
+    dis = 0
+    for (name, order, pipe), r in zip(meta, res):
+        if r.error:
+            continue
+        k = r.kir or {}
+        if "shape_error" in k or "error" in k:
+            ctx.broken.append(f"kernel-readback:{(k.get('shape_error') or k.get('error'))[:80]}:{name}:{order}:{pipe}")
+            dis += 1
+            continue
+        oob = _oob_of(r)
+        if oob:
+            dis += 1
+            ctx.violation(f"oob:kernel-after-transformation:{'+'.join(pipe)}",
+                          f"scenario {name} (outputs {order}) after {' -> '.join(pipe)}: the generated kernel accesses "
+                          f"{oob[0][0]}{list(oob[0][1])} out of bounds ({oob[0][3]})",
+                          {"scenario": name, "order": order, "pipeline": list(pipe), "seed": ctx.seed,
+                           "oob": [list(map(str, o)) for o in oob[:10]]})
+    ctx.note_batch("kernel-accesses-after-transformations", len(jobs), dis, exhaustive=False, scenarios=len(scen),
+                   transformations=names, skipped=skipped)
+
+
 def batch_kernels_symbolic(ctx):
     n = 150 if ctx.thorough else 40
     top = 6 if ctx.thorough else 4
@@ -235,6 +294,7 @@ def run(ctx: common.Ctx):
     c02.batch_multiarg_elemwise(ctx, prop="C11")
     c02.batch_construct(ctx, prop="C11")
     batch_kernels_concrete(ctx)
+    batch_kernels_after_transformations(ctx)
     batch_kernels_symbolic(ctx)
     batch_isl(ctx)
     ctx.broken = sorted(set(ctx.broken))[:50]
